@@ -32,35 +32,45 @@ def c02(ctx):
     if neg.violated != "CacheCoherent":
         raise ToolError("negative control failed: stale-ep key design not rejected by CacheCoherent")
     ctx.extra["design_level"] = "MC_GenCache: all engine states within 4 plies of a K+3P seed: no two share (key, colour) with different answers; accumulate-mode control rejected"
-    out = ctx.path("cache.ndjson")
     seeds_path = write_ndjson(ctx.path("seeds.ndjson"), seed_records(load_seeds()))
-    summ = harness(["record-cache", out, "--seed", ctx.seed, "--tree-depth", 4, "--seed-depth", 2 if quick else 3, "--deep-seeds", 3 if quick else 6, "--games", 12 if quick else 200,
-                    "--plies", 80 if quick else 150, "--seeds", seeds_path, "--sample-one-in", 120 if quick else 300, "--attack-one-in", 60 if quick else 40], timeout=7200)
-    r2 = ctx.run_tlc("Trace_Gen", "Trace_Gen.cfg", env={"TRACE": out}, workers=1, want_records=True, stack="64m", heap="2g", young="400m", timeout=3600)
-    if r2.postcondition_failed or r2.distinct != summ["logged"] + 1:
-        raise ToolError("Trace_Gen did not consume the trace (%d states, %d records)\n%s" % (r2.distinct, summ["logged"], r2.tail))
-    lines = None
-    nbad = 0
-    for x in r2.records:
-        if "bad" in x:
-            nbad += 1
-            if lines is None:
-                lines = open(out).read().splitlines()
-            rec = json.loads(lines[x["bad"] - 1])
-            import fen as fenlib
-            ctx.violation(x["why"], {"binding": "B2 Trace_Gen", "fen": fenlib.fen(rec["pos"]), "query": rec, "diagnosis": x["x"]}, sig={"what2": rec["what"]})
-    seen = summ["move_disagreements"] + summ["attack_disagreements"]
-    ctx.extra["disagreements_seen_by_the_recorder"] = seen
-    # the recorder logs the first 300 disagreements of each kind (and whatever the agreement sample happens to
-    # contain); TLC must confirm at least those, and none when the recorder saw none
-    if (seen == 0 and nbad != 0) or nbad < min(seen, 300):
-        raise ToolError("harness saw %d disagreements, TLC reported %d" % (seen, nbad))
+    # the long-lived generator keeps what it has answered (about 25 KB a node): each recording stays below
+    # ~0.5 M nodes; the thorough tier makes two recordings (all seeds a ply deeper / the perft suite deeper still)
+    configs = [(2, 3, 12, 80, 120, 60)] if quick else [(3, 0, 100, 150, 300, 40), (2, 6, 100, 150, 300, 40)]
+    tot = {"nodes": 0, "attack_checks": 0, "long_lived_cache_hits": 0, "logged": 0}
+    for ci, (sd, deep, games, plies, s1, a1) in enumerate(configs):
+        out = ctx.path("cache%d.ndjson" % ci)
+        summ = harness(["record-cache", out, "--seed", ctx.seed + ci, "--tree-depth", 4, "--seed-depth", sd, "--deep-seeds", deep, "--games", games,
+                        "--plies", plies, "--seeds", seeds_path, "--sample-one-in", s1, "--attack-one-in", a1], timeout=7200)
+        r2 = ctx.run_tlc("Trace_Gen", "Trace_Gen.cfg", env={"TRACE": out}, workers=1, want_records=True, stack="64m", heap="2g", young="400m", timeout=3600)
+        if r2.postcondition_failed or r2.distinct != summ["logged"] + 1:
+            raise ToolError("Trace_Gen did not consume the trace (%d states, %d records)\n%s" % (r2.distinct, summ["logged"], r2.tail))
+        lines = None
+        nbad = 0
+        for x in r2.records:
+            if "bad" in x:
+                nbad += 1
+                if lines is None:
+                    lines = open(out).read().splitlines()
+                rec = json.loads(lines[x["bad"] - 1])
+                import fen as fenlib
+                ctx.violation(x["why"], {"binding": "B2 Trace_Gen", "fen": fenlib.fen(rec["pos"]), "query": rec, "diagnosis": x["x"]}, sig={"what2": rec["what"]})
+        seen = summ["move_disagreements"] + summ["attack_disagreements"]
+        ctx.extra["disagreements_seen_by_the_recorder"] = ctx.extra.get("disagreements_seen_by_the_recorder", 0) + seen
+        # the recorder logs the first 300 disagreements of each kind (and whatever the agreement sample happens to
+        # contain); TLC must confirm at least those, and none when the recorder saw none
+        if (seen == 0 and nbad != 0) or nbad < min(seen, 300):
+            raise ToolError("harness saw %d disagreements, TLC reported %d" % (seen, nbad))
+        for k in tot:
+            tot[k] += summ[k]
+        if ci == 0:
+            with open(out) as f:
+                ctx.sample({"binding": "B2", "query": json.loads(f.readline())})
+        os.unlink(out)
+    summ = tot
     ctx.traces += 1
     ctx.evaluations += summ["nodes"] + summ["attack_checks"]
     ctx.nontrivial += summ["long_lived_cache_hits"]
     ctx.extra.update({"nodes_queried": summ["nodes"], "long_lived_cache_hits": summ["long_lived_cache_hits"], "attack_map_checks": summ["attack_checks"], "queries_validated_by_tlc": summ["logged"]})
-    with open(out) as f:
-        ctx.sample({"binding": "B2", "query": json.loads(f.readline())})
     ctx.rule = ("one long-lived generator through a perft-shaped walk of the start position to ply 4 (contains 1.a4 h6 2.a5 b5 / 1.a4 b5 2.a5 h6), seed walks, random games with backtracking and searches; "
                 "at every node its move list is compared with a capacity-1 generator whose hit counter did not move (else a brand-new one), attack maps with a brand-new generator on a sample; "
                 "all disagreements and a sample of agreements are validated by Trace_Gen. distinct_nontrivial = queries answered from the long-lived cache")
